@@ -1,12 +1,15 @@
 """C08 — read-only API never mutates the network it is given.
 
 Decided differentially on the real code: every public callable taking a network first (enumerated by
-introspection, harness/c08_translate.py) is called on networks of the three classes with generated arguments; the
-argument network is compared before/after with a deep snapshot (orders, members, memberships, three attribute
-levels incl. dict key order, frozen flag, next automatic edge ID), and nothing mutable reachable from the return
-value may be one of the network's own containers (id() walk + in-place mutation of the result).  The Lean part
-(Props/C08.lean) proves that the snapshot determines every observer of the model and checks the regenerated API
-table; the model's observers are tied to the real views through the C08 driver.
+introspection, harness/c08_translate.py; callables not recognised by signature/documentation are probed dynamically
+with a network of each class as first argument) is called on networks of the three classes with generated
+arguments; the argument network is compared before/after with a deep snapshot (node order, edge order, members,
+memberships, iteration order of the member/membership sets, three attribute levels incl. dict key order, frozen flag,
+next automatic edge ID), and nothing mutable reachable from the return value may be one of the network's own
+STRUCTURAL containers (id() walk + in-place mutation of the result).  Sharing of attribute dicts is an observation.
+The Lean part (Props/C08.lean) proves that the snapshot determines every observer of the model and checks the
+regenerated API table; the model's observers are tied to the real views through the C08 driver.  No theorem says
+"function f does not mutate": that is decided by the run below.
 """
 import collections.abc
 import contextlib
@@ -16,7 +19,9 @@ import io
 import itertools
 import json
 import os
+import re
 import shutil
+import socket
 import tempfile
 import time
 import warnings
@@ -25,19 +30,68 @@ import xgi
 
 from .. import c08_lib as L
 from .. import c08_translate as T
-from ..core import Infra, TRUSTED_COMMON, VERIF, build_and_audit, canon, enc_attrs_req, enc_id, finish, idkey, jhash, load_known, run_driver
+from ..core import (Infra, TRUSTED_COMMON, VERIF, build_and_audit, enc_attrs_req, enc_id, finish, idkey, jhash, run_driver,
+                    unlisted_violations)
 
 NET_CLASSES = ("Hypergraph", "DiHypergraph", "SimplicialComplex")
 CHEAP_STATS = ("degree", "order", "attrs")
 LIGHT_STAT_METHODS = ("asdict", "asnumpy", "aslist")
-ALIAS_CLASS = {"node-attrs": "alias-attrs", "edge-attrs": "alias-attrs", "private-state": "alias-net-attrs"}
+# Aliasing policy.  The property's own anchors say "views return copies of member/membership sets" and "an internal set
+# handed out without copying would go unnoticed": a result that shares one of the network's STRUCTURAL containers (member
+# sets, membership sets, the node/edge tables, the attribute tables, the ID counter) is a VIOLATION - in-place use of the
+# result changes the argument's structure.  Sharing of ATTRIBUTE dicts (H.nodes[n], attrs statistics, to_hif_dict,
+# to_hypergraph_dict: networkx-style by design) is an observation.
+OBSERVATION_CLASSES = {"alias-attrs", "alias-net-attrs"}
+ATTR_DICT_PATH = re.compile(r"^ret\._(?:node|edge)_attr\[[^\[\]]*\]$|^ret\._net_attr$")
+
+# Targets for which NO call can complete on any network, because xgi itself raises for every input (documented here so
+# that a target with zero completed calls is otherwise always reported - a new public function is never silently accepted).
+NEVER_COMPLETES = [
+    (r"^Multi(Di)?(Node|Edge)Stat\.__getitem__$",
+     "MultiIDStat inherits IDStat.__getitem__, which calls self.func - None for every multi-stat: raises TypeError for every ID "
+     "in the view and IDNotFound for every other key"),
+    (r"^Multi(Di)?(Node|Edge)Stat\.__call__$",
+     "MultiIDStat inherits IDStat.__call__, which re-instantiates the class with (net, view, func, args=, kwargs=); "
+     "MultiIDStat.__init__ takes (network, view, stats) only: TypeError for every argument list"),
+]
+
+
+def never_completes_reason(site):
+    return next((why for rx, why in NEVER_COMPLETES if re.search(rx, site)), None)
+
+
+def alias_class(cls, detail):
+    """failure class of 'mutating the RESULT in place changed the argument' from the snapshot component that changed"""
+    if cls in ("node-attrs", "edge-attrs"):
+        return "alias-attrs"
+    if cls in ("private-state", "attr-key-order"):
+        return "alias-net-attrs" if L.private_field(detail) == "_net_attr" else "alias-internal-container"
+    return "alias-" + cls
+
+
+def shared_class(internal_path):
+    """failure class of 'the result contains one of the argument's own containers' from where that container lives"""
+    if ATTR_DICT_PATH.match(internal_path):
+        return "alias-net-attrs" if internal_path == "ret._net_attr" else "alias-attrs"
+    if internal_path.startswith("ret._edge["):
+        return "alias-members"
+    if internal_path.startswith("ret._node["):
+        return "alias-memberships"
+    return "alias-internal-container"
 
 
 # ----------------------------------------------------------------------------- targets
 
 class Target:
-    def __init__(self, site, kind, params, domain=None, force=None, where=None, bind=None, extra=None, heavy=False, vsite=None):
+    def __init__(self, site, kind, params, domain=None, force=None, where=None, bind=None, extra=None, heavy=False, vsite=None,
+                 literals=None, probe=None):
         self.site, self.kind, self.params, self.domain = site, kind, params, domain
+        self.literals = literals or {}   # {parameter: option values spelled in the function's own body}
+        self.probe = probe               # reason why the callable was not recognised as network-first (dynamic probe), else None
+        self.accepted = probe is None    # a probed callable becomes a full target once a call with a network completed
+        self.probed = set()              # network classes already tried
+        self.timeout = 3 if probe else 8
+        self.doc_classes = set()         # network classes the documentation of the first parameter names (module-level functions)
         self.vsite = vsite or site   # site a violation is attributed to: the function that defines the behaviour
         self.force = force or {}
         self.where = where          # net -> object to call on (or None when not admissible)
@@ -83,30 +137,47 @@ def concrete_view_classes():
     return out
 
 
-def build_targets(entries):
-    """-> (targets, skipped declared mutators)"""
-    targets, skipped = [], []
+def _lits(fn):
+    try:
+        return T.option_literals(fn) if fn is not None and str(getattr(fn, "__module__", "")).startswith("xgi") else {}
+    except Exception:  # noqa
+        return {}
+
+
+def build_targets(entries, excluded_fns=()):
+    """-> (targets, declared mutators [(entry, why)], excluded [{name, reason}]) : every entry of the enumeration ends up in
+    exactly one of the three lists (or, for the stat classes, in `stat_targets`)"""
+    targets, mutators, excluded = [], [], []
     concrete = concrete_view_classes()
     for e in entries:
         name, kind, fn = e["name"], e["kind"], e["fn"]
         hip, doc_mut = e["hip"], e["doc_mut"]
         if doc_mut and not hip:
-            skipped.append(name)
+            mutators.append(e)
             continue
         force = {"in_place": False} if hip else {}
         if kind == "function":
             dom = "edge" if "edgestats" in name else ("node" if "nodestats" in name else None)
             heavy = name.startswith("xgi.draw") or "layout" in name
             targets.append(Target(name, kind, [p for p in _params(fn, 1) if p.name != "in_place"], dom, force,
-                                  where=lambda net: net, bind=(lambda f: (lambda net: (lambda *a, **k: f(net, *a, **k))))(fn), heavy=heavy))
+                                  where=lambda net: net, bind=(lambda f: (lambda net: (lambda *a, **k: f(net, *a, **k))))(fn), heavy=heavy,
+                                  literals=_lits(fn)))
+            try:
+                targets[-1].doc_classes = T.doc_first_param_classes(fn)
+            except Exception:  # noqa
+                pass
             continue
         cls, meth = name.split(".", 1)
         if cls in NET_CLASSES:
             where = (lambda c: (lambda net: net if type(net).__name__ == c else None))(cls)
         elif cls.endswith("View") and cls in concrete:
             where = (lambda c: (lambda net: net.nodes if type(net.nodes).__name__ == c else (net.edges if type(net.edges).__name__ == c else None)))(cls)
+        elif cls.endswith("Stat"):
+            continue                                   # stat classes are expanded per network in stat_targets (need a stat name)
         else:
-            continue                                   # stat classes are expanded per network below (need a stat name)
+            excluded.append({"name": name, "reason": f"{cls} is not the class of any network's .nodes/.edges: the method is exercised "
+                                                     f"through the concrete view classes {sorted(concrete)} that inherit it"})
+            continue
         dom = "edge" if "Edge" in cls else ("node" if "Node" in cls else None)
         if kind == "property":
             targets.append(Target(name, kind, [], dom, {}, where, bind=(lambda m: (lambda obj: (lambda: getattr(obj, m))))(meth),
@@ -114,23 +185,41 @@ def build_targets(entries):
         elif kind == "classmethod":
             targets.append(Target(name, kind, [p for p in _params(fn, 1)], dom, {}, where,
                                   bind=(lambda m: (lambda obj: getattr(type(obj), m)))(meth), extra={"selfview": True},
-                                  vsite=defining_site(cls, meth, fn)))
+                                  vsite=defining_site(cls, meth, fn), literals=_lits(fn)))
         else:
             ps = [p for p in _params(fn, 1) if p.name != "in_place"] if fn is not None else None
             targets.append(Target(name, kind, ps, dom, force, where, bind=(lambda m: (lambda obj: getattr(obj, m)))(meth),
-                                  vsite=defining_site(cls, meth, fn)))
-    return targets, skipped
+                                  vsite=defining_site(cls, meth, fn), literals=_lits(fn)))
+    # module-level public functions NOT recognised as taking a network first: probed dynamically (the call is tried with a
+    # network of each class as first positional argument); one that accepts a network becomes a full target
+    for x in excluded_fns:
+        fn, how = x["fn"], x["how"]
+        if how in ("no-parameters", "no-positional"):
+            excluded.append({"name": x["name"], "reason": f"{how}: cannot be given a network as first positional argument"})
+            continue
+        if how.startswith("factory-parameter"):
+            excluded.append({"name": x["name"], "reason": f"{how}: the first parameter says what to build (a constructor); it is not an input network"})
+            continue
+        targets.append(Target(x["name"], "function", [p for p in _params(fn, 1) if p.name != "in_place"], None, {},
+                              where=lambda net: net, bind=(lambda f: (lambda net: (lambda *a, **k: f(net, *a, **k))))(fn),
+                              literals=_lits(fn), probe=how))
+    return targets, mutators, excluded
+
+
+STAT_DUNDERS = ("__getitem__", "__iter__", "__len__", "__call__", "__repr__", "__str__")
 
 
 def stat_targets(entries, thorough):
-    """targets on stat objects: accessor `view.<stat>` (+ its arguments) and the methods of the stat classes"""
+    """targets on stat objects: accessor `view.<stat>` (+ its arguments) and the methods of the stat classes
+    -> (targets, excluded [{name, reason}], number of (stat, method) pairs left to the thorough tier)"""
     by_cls = {}
     for e in entries:
         cls, _, meth = e["name"].partition(".")
         if cls.endswith("Stat"):
             by_cls.setdefault(cls, []).append((meth, e["kind"], e["fn"]))
     import xgi.stats as st
-    out = []
+    out, excluded, later = [], [], 0
+    used_cls = set()
 
     for viewsel, vname in ((lambda net: net.nodes, "nodes"), (lambda net: net.edges, "edges")):
         for modname, dom in (("nodestats", "node"), ("edgestats", "edge"), ("dinodestats", "node"), ("diedgestats", "edge")):
@@ -153,12 +242,15 @@ def stat_targets(entries, thorough):
                                   bind=(lambda s: (lambda v: (lambda: getattr(v, s))))(sname), vsite=root))
                 if ps:
                     out.append(Target(f"{vcls}.{sname}(…)", "stat-accessor", ps, dom, {}, sel,
-                                      bind=(lambda s: (lambda v: (lambda *a, **k: getattr(v, s)(*a, **k).asdict())))(sname), vsite=root))
+                                      bind=(lambda s: (lambda v: (lambda *a, **k: getattr(v, s)(*a, **k).asdict())))(sname), vsite=root,
+                                      literals=_lits(f)))
                 methods = by_cls.get(scls, [])
+                used_cls.add(scls)
                 for meth, kind, fn in methods:
-                    if meth.startswith("__") and meth not in ("__getitem__", "__iter__", "__len__", "__call__"):
+                    if meth.startswith("__") and meth not in STAT_DUNDERS:
                         continue
                     if sname not in CHEAP_STATS and not (thorough or meth in LIGHT_STAT_METHODS):
+                        later += 1
                         continue
                     if kind == "property":
                         b = (lambda s, mm: (lambda v: (lambda: getattr(getattr(v, s), mm))))(sname, meth)
@@ -168,23 +260,40 @@ def stat_targets(entries, thorough):
                         ps2 = _params(fn, 1) if fn is not None else None
                     if meth == "__call__":
                         ps2 = []
-                    out.append(Target(f"{scls}.{meth}", "stat-method", ps2, dom, {}, sel, bind=b, extra={"stat": sname}, vsite=root))
-            # multi-stats
+                    out.append(Target(f"{scls}.{meth}", "stat-method", ps2, dom, {}, sel, bind=b, extra={"stat": sname}, vsite=root,
+                                      literals=_lits(fn)))
+            # multi-stats: a pair of stats, and a single stat (the numeric summaries max/min/sum/... of MultiIDStat only
+            # complete for one column; argmin/argmax/argsort only on one-element views - networks `*-one` exist for that)
             mcls = "Multi" + scls
-            two = [n for n in ("degree", "order", "size", "in_degree", "head_order", "clustering_coefficient") if n in names][:2]
-            if len(two) == 2 and mcls in by_cls:
-                out.append(Target(f"{vcls}.multi", "stat-accessor", [], dom, {}, sel, bind=(lambda nn: (lambda v: (lambda: v.multi(nn))))(two)))
-                for meth, kind, fn in by_cls[mcls]:
-                    if meth.startswith("__") and meth not in ("__getitem__", "__iter__", "__len__"):
-                        continue
-                    if kind == "property":
-                        b = (lambda nn, mm: (lambda v: (lambda: getattr(v.multi(nn), mm))))(two, meth)
-                        ps2 = []
-                    else:
-                        b = (lambda nn, mm: (lambda v: getattr(v.multi(nn), mm)))(two, meth)
-                        ps2 = _params(fn, 1) if fn is not None else None
-                    out.append(Target(f"{mcls}.{meth}", "stat-method", ps2, dom, {}, sel, bind=b, extra={"stat": "multi:" + ",".join(two)}))
-    return out
+            pool = [n for n in ("degree", "order", "size", "in_degree", "head_order", "clustering_coefficient") if n in names]
+            if pool and mcls in by_cls:
+                used_cls.add(mcls)
+                for sel_names in ([pool[:2]] if len(pool) >= 2 else []) + [pool[:1]]:
+                    out.append(Target(f"{vcls}.multi", "stat-accessor", [], dom, {}, sel, bind=(lambda nn: (lambda v: (lambda: v.multi(nn))))(sel_names),
+                                      extra={"stat": "multi:" + ",".join(sel_names)}))
+                    for meth, kind, fn in by_cls[mcls]:
+                        if meth.startswith("__") and meth not in STAT_DUNDERS:
+                            continue
+                        if kind == "property":
+                            b = (lambda nn, mm: (lambda v: (lambda: getattr(v.multi(nn), mm))))(sel_names, meth)
+                            ps2 = []
+                        else:
+                            b = (lambda nn, mm: (lambda v: getattr(v.multi(nn), mm)))(sel_names, meth)
+                            ps2 = _params(fn, 1) if fn is not None else None
+                        if meth == "__call__":
+                            ps2 = []
+                        out.append(Target(f"{mcls}.{meth}", "stat-method", ps2, dom, {}, sel, bind=b, extra={"stat": "multi:" + ",".join(sel_names)},
+                                          literals=_lits(fn)))
+    for cls, ms in sorted(by_cls.items()):
+        if cls not in used_cls:
+            for meth, kind, fn in ms:
+                excluded.append({"name": f"{cls}.{meth}", "reason": f"{cls} is a base class no view hands out: the method is exercised through "
+                                                                    f"the concrete stat classes {sorted(used_cls)} that inherit it"})
+        else:
+            for meth, kind, fn in ms:
+                if meth.startswith("__") and meth not in STAT_DUNDERS:
+                    excluded.append({"name": f"{cls}.{meth}", "reason": "protocol method outside the exercised list " + str(list(STAT_DUNDERS))})
+    return out, excluded, later
 
 
 # ----------------------------------------------------------------------------- one network under test
@@ -197,73 +306,154 @@ class Subject:
     def rebuild(self):
         self.net, self.nested = L.build(self.spec)
         self.before = L.snapshot(self.net)
+        self._internal = None
 
     def internal_ids(self):
-        conts, _ = L.reach(self.net)
-        return {i: p for i, (o, p) in conts.items() if i not in self.nested}
+        if self._internal is None:
+            conts, _ = L.reach(self.net)
+            self._internal = {i: p for i, (o, p) in conts.items() if i not in self.nested}
+        return self._internal
 
 
-def plan_calls(t, net, obj, rng, max_variants, env):
-    """[(args, kwargs) as encoded JSON] for one target on one network"""
+class Rotation:
+    """which candidate value of which parameter has been called / has completed, per target: the next values to try are
+    those that have not completed yet, then the least-called ones - so that over a run every enumerated option value of
+    every function is called (a final sweep calls what is left)"""
+
+    def __init__(self):
+        self.state = {}                                  # (site, stat, pname) -> {key: [example value, calls, ok]}
+
+    def table(self, t, pname):
+        return self.state.setdefault((t.site, t.extra.get("stat"), pname), {})
+
+    @staticmethod
+    def key(pname, i, v):
+        return f"#{i}" if pname in L.ID_PARAMS else L.jdump(L.encode(v))
+
+    def items(self, t, pname, cands):
+        tb = self.table(t, pname)
+        out = []
+        for i, v in enumerate(cands):
+            ky = self.key(pname, i, v)
+            rec = tb.setdefault(ky, [None if pname in L.ID_PARAMS else L.encode(v), 0, 0])
+            out.append((ky, i, v, rec))
+        return out
+
+    def pick(self, t, pname, cands, k):
+        """up to k (key, value): first the value that never completed / was called least, then the least-called ones"""
+        items = self.items(t, pname, cands)
+        if not items or k <= 0:
+            return []
+        # two policies, alternating per visit: (A) a value that has not completed yet (least called first) - so that every
+        # value gets its chance on every kind of network; (B) among the values known to complete, the least called one - a
+        # value the function accepts is worth more on a further network than one that raises everywhere
+        turn = self.table(t, "__turn__:" + pname).setdefault("n", [None, 0, 0])
+        turn[1] += 1
+        pol_a = lambda pool: min(pool, key=lambda it: (it[3][2] > 0, it[3][1], it[1]))
+        pol_b = lambda pool: min(pool, key=lambda it: (it[3][2] == 0, it[3][1], it[1]))
+        chosen = []
+        for j in range(min(k, len(items))):
+            pool = [it for it in items if it not in chosen]
+            chosen.append((pol_a if (turn[1] + j) % 2 else pol_b)(pool))
+        for it in chosen:
+            it[3][1] += 1
+        return [(it[0], it[2]) for it in chosen]
+
+    def completed(self, t, tags):
+        for pname, ky in tags:
+            rec = self.table(t, pname).get(ky)
+            if rec is not None:
+                rec[2] += 1
+
+
+def _is_default(v, p):
+    d = p.default
+    if d is inspect.Parameter.empty:
+        return False
+    try:
+        return type(v) is type(d) and bool(v == d)
+    except Exception:  # noqa
+        return False
+
+
+def param_candidates(t, p, net, env):
+    """candidate values of one parameter of one target on one network (None: no generator) - literals of the body first"""
+    if t.extra.get("selfview") and p.name == "view":
+        return ["$self"]
+    env["domain"] = t.domain
+    try:
+        return L.candidates(p.name, net, t.domain, p.default, env, t.literals.get(p.name, ()))
+    except L.NoGen:
+        return None
+
+
+# parameters that only set how long a simulation runs: kept small in every call but the first one of a target (whose defaults
+# are exercised once per run), otherwise simulate_kuramoto & co. with their default 10000 steps eat the whole budget
+COST_PARAMS = {"timesteps": 5, "n_steps": 5}
+
+
+def plan_calls(t, net, rot, rng, k_values, env, max_opt=None, combos=1, allfirst=True):
+    """[(args, kwargs, tags)] for one target on one network; args/kwargs encoded as JSON (replayable); tags = the
+    (parameter, rotation key) pairs of the option values the call carries.  `k_values` values per optional parameter,
+    at most `max_opt` optional parameters (rotating), `combos` random combinations of optional parameters."""
     if t.params is None:                               # builtin slot wrapper: signature unknown -> fallbacks
-        return [([], {})] + [([v], {}) for v in L.FALLBACK[:4]]
+        return [([], {}, [])] + [([L.encode(v)], {}, []) for v in ("$node0", "$edge0", "$nodes3", 1)]
     req = [p for p in t.params if p.default is inspect.Parameter.empty and p.kind != p.KEYWORD_ONLY]
     opt = [p for p in t.params if p not in req]
-    env["domain"] = t.domain
-
-    def cands(p):
-        if t.extra.get("selfview") and p.name == "view":
-            return ["$self"]
-        try:
-            return L.candidates(p.name, net, t.domain, p.default, env)
-        except L.NoGen:
-            return None
-    req_c = []
-    for p in req:
-        c = cands(p)
-        req_c.append(c if c else list(L.FALLBACK))
-    base_sets = []
+    calls = []
+    first = []
+    visits = rot.table(t, "__visits__").setdefault("n", [None, 0, 0])
+    visits[1] += 1
+    if visits[1] > 1:
+        cheap = {p.name: COST_PARAMS[p.name] for p in opt if p.name in COST_PARAMS}
+        if cheap:
+            t = copy.copy(t)
+            t.force = dict(t.force, **cheap)
     if req:
-        # first choice of every required parameter, then vary one required parameter at a time
-        first = [c[0] if c else None for c in req_c]
-        base_sets.append(first)
-        for i, c in enumerate(req_c):
-            for v in c[1:max_variants + 2]:
+        req_c = [param_candidates(t, p, net, env) or list(L.FALLBACK) for p in req]
+        first = [c[0] for c in req_c]
+        calls.append((list(first), dict(t.force), []))
+        for i, (p, c) in enumerate(zip(req, req_c)):   # vary one required parameter at a time, rotating over the others
+            for ky, v in rot.pick(t, p.name, c[1:], k_values):
                 b = list(first)
                 b[i] = v
-                base_sets.append(b)
+                calls.append((b, dict(t.force), [(p.name, ky)]))
     else:
-        base_sets.append([])
-    calls = []
-    for b in base_sets:
-        calls.append((b, dict(t.force)))
-    first = base_sets[0]
+        calls.append(([], dict(t.force), []))
+    optc = []
     for p in opt:
-        c = cands(p)
-        if not c:
-            continue
-        for v in c[:max_variants]:
-            if v == p.default and not (isinstance(v, bool) != isinstance(p.default, bool)):
-                continue
+        c = param_candidates(t, p, net, env)
+        c = [v for v in (c or []) if not _is_default(v, p)]
+        if c:
+            optc.append((p, c))
+    chosen = optc
+    if max_opt is not None and len(optc) > max_opt:    # rotate over the optional parameters: least-called first
+        load = lambda pc: sum(r[1] for r in rot.table(t, pc[0].name).values()) / max(1, len(pc[1]))
+        chosen = sorted(optc, key=lambda pc: (load(pc), optc.index(pc)))[:max_opt]
+    for p, c in chosen:
+        for ky, v in rot.pick(t, p.name, c, k_values):
             kw = dict(t.force)
             kw[p.name] = v
-            calls.append((first, kw))
-    allfirst = dict(t.force)
-    for p in opt:
-        c = cands(p)
-        if c:
-            allfirst[p.name] = c[0]
-    if len(allfirst) - len(t.force) >= 2:              # every generated optional parameter at once (needed when defaults are unusable)
-        calls.append((first, allfirst))
-    if max_variants > 2 and len(opt) > 1:              # thorough: a few random combinations of optional parameters
-        for _ in range(3):
-            kw = dict(t.force)
-            for p in opt:
-                c = cands(p)
-                if c and rng.random() < 0.5:
-                    kw[p.name] = rng.choice(c)
-            calls.append((first, kw))
-    return [([L.encode(x) for x in a], {k: L.encode(v) for k, v in kw.items()}) for a, kw in calls]
+            calls.append((first, kw, [(p.name, ky)]))
+    if len(optc) >= 2:
+        if allfirst:
+            kw, tags = dict(t.force), []               # every generated optional parameter at its first value at once
+            for p, c in optc:
+                kw[p.name] = c[0]
+                tags.append((p.name, rot.key(p.name, 0, c[0])))
+                rot.items(t, p.name, c)[0][3][1] += 1
+            calls.append((first, kw, tags))
+        for _ in range(combos):                        # combinations of optional parameters (needed when defaults are unusable)
+            kw, tags = dict(t.force), []
+            for p, c in optc:
+                if rng.random() < 0.6:
+                    i = rng.randrange(len(c))
+                    kw[p.name] = c[i]
+                    tags.append((p.name, rot.key(p.name, i, c[i])))
+                    rot.items(t, p.name, c)[i][3][1] += 1
+            if len(tags) >= 2:
+                calls.append((first, kw, tags))
+    return [([L.encode(x) for x in a], {k: L.encode(v) for k, v in kw.items()}, tags) for a, kw, tags in calls]
 
 
 def drain(ret):
@@ -275,6 +465,19 @@ def drain(ret):
     return ret
 
 
+@contextlib.contextmanager
+def no_network():
+    """dynamic probes hand a network to functions that may expect a URL / dataset name: no connection may leave the process"""
+    def refuse(*a, **k):
+        raise OSError("network access is disabled inside the C08 check")
+    saved = (socket.socket.connect, socket.create_connection)
+    socket.socket.connect, socket.create_connection = refuse, refuse
+    try:
+        yield
+    finally:
+        socket.socket.connect, socket.create_connection = saved
+
+
 def check_call(ctx, t, subj, args, kwargs, env, record=True):
     """perform one call and evaluate the predicate.  Returns (ok_call, exception text, violations)"""
     net = subj.net
@@ -284,22 +487,34 @@ def check_call(ctx, t, subj, args, kwargs, env, record=True):
     viol = []
     exc = None
     ret = None
+    cwd = os.getcwd()
     try:
         f = t.bind(obj)
+        env["pname"], env["kwargs"] = "", kwargs
         a = [obj if x == "$self" else L.resolve(x, net, env) for x in args]
-        kw = {k: L.resolve(v, net, env) for k, v in kwargs.items()}
-        with warnings.catch_warnings(), contextlib.redirect_stdout(io.StringIO()):
+        kw = {}
+        for k, v in kwargs.items():
+            env["pname"] = k
+            kw[k] = L.resolve(v, net, env)
+        with warnings.catch_warnings(), contextlib.redirect_stdout(io.StringIO()), contextlib.redirect_stderr(io.StringIO()):
             warnings.simplefilter("ignore")
-            ret = drain(L.with_timeout(lambda: f(*a, **kw)))
+            if t.probe:
+                os.chdir(env["tmp"])
+                with no_network():
+                    ret = drain(L.with_timeout(lambda: f(*a, **kw), t.timeout))
+            else:
+                ret = drain(L.with_timeout(lambda: f(*a, **kw), t.timeout))
     except L.CallTimeout as ex:
         exc = "CallTimeout"
     except Exception as ex:  # noqa
         exc = f"{type(ex).__name__}: {str(ex)[:100]}"
     finally:
+        os.chdir(cwd)
         if t.heavy or "draw" in t.site:
             import matplotlib.pyplot as plt
             plt.close("all")
-    after = L.snapshot(net)
+    ctx.stats["snapshots"] += 1
+    after = L.snapshot(net, public_uid=ctx.stats["snapshots"] % 4 == 0)
     d = L.diff(subj.before, after)
     if d:
         for cls, detail in d:
@@ -315,33 +530,50 @@ def check_call(ctx, t, subj, args, kwargs, env, record=True):
         ctx.stats["alias:shared-user-attribute-values"] += sum(1 for i in conts if i in subj.nested)
         ctx.stats["alias:live-views-returned"] += len(live)
         same_object = ret is net
-        L.scribble(conts, subj.nested)
+        touched = L.scribble(conts, subj.nested)
         if isinstance(ret, L.NETS) and not same_object and not ret.is_frozen:
             L.mutate_network(ret)
-        after2 = L.snapshot(net)
-        d2 = L.diff(subj.before, after2)
-        if d2:
-            for cls, detail in d2:
-                viol.append((ALIAS_CLASS.get(cls, "alias-" + cls), f"{t.site}(args={args}, kwargs={kwargs}) on {subj.spec['label']}: mutating the returned "
-                                              f"object in place changed the argument ({detail}); shared: {shared[:3]}"))
+            touched += 1
+        # nothing reachable from the result was written to (scalars, strings, live views): the argument cannot have changed
+        d2 = L.diff(subj.before, L.snapshot(net, public_uid=isinstance(ret, L.NETS))) if touched else []
+        seen = set()
+        for cls, detail in d2:
+            ac = alias_class(cls, detail)
+            seen.add(ac)
+            viol.append((ac, f"{t.site}(args={args}, kwargs={kwargs}) on {subj.spec['label']}: mutating the returned "
+                             f"object in place changed the argument ({detail}); shared: {shared[:3]}"))
+        # containers found by identity that the scribbling did not show (an ID dict refusing the sentinel, the counter ...)
+        by_cls = {}
+        for rp, ip in shared:
+            by_cls.setdefault(shared_class(ip), []).append((rp, ip))
+        for ac, lst in sorted(by_cls.items()):
+            if ac not in seen and not (ac in OBSERVATION_CLASSES and seen & OBSERVATION_CLASSES):
+                viol.append((ac, f"{t.site}(args={args}, kwargs={kwargs}) on {subj.spec['label']}: the result "
+                                 f"shares {len(lst)} container(s) with the argument: {lst[:3]}"))
+        if d2 or shared:
             subj.rebuild()
-        elif shared:
-            viol.append(("alias-internal-container", f"{t.site}(args={args}, kwargs={kwargs}) on {subj.spec['label']}: the result "
-                                                     f"shares {len(shared)} container(s) with the argument: {shared[:3]}"))
-            subj.rebuild()
+    # a module-level function whose documentation names the class of its first parameter (`H : Hypergraph`) and that is handed
+    # a network of another class is used outside its documented domain ("admissible argument values"): the call is still made
+    # and a change of the argument is still a violation, but what the RESULT shares with such an argument is only recorded
+    outside = bool(t.doc_classes) and not any(isinstance(net, getattr(xgi, c)) for c in t.doc_classes if hasattr(xgi, c))
+    if outside:
+        for cls, detail in [v for v in viol if v[0].startswith("alias-") and v[0] not in OBSERVATION_CLASSES]:
+            ctx.stats["observation:" + cls + "(input class outside the documented domain)"] += 1
+            ctx.extra.setdefault("aliasing_observations", {}).setdefault(
+                f"{t.vsite} [{cls}; {type(net).__name__} given where the documentation says {sorted(t.doc_classes)}]", detail[:300])
+        viol = [v for v in viol if not (v[0].startswith("alias-") and v[0] not in OBSERVATION_CLASSES)]
     if record:
         ctx.evaluations += 1
         for cls, detail in viol:
-            if cls.startswith("alias-"):
-                # The statement of C08 is about the call itself ("leaves its input network exactly as it was").  A result that
-                # shares a container with its argument has not changed the argument; it is recorded as an observation (what a
-                # later in-place edit of the *result* could do), not as a violation of C08.
+            if cls in OBSERVATION_CLASSES:
+                # networkx-style sharing of ATTRIBUTE dicts with the result (documented design of H.nodes[n], the attrs
+                # statistics, to_hif_dict, to_hypergraph_dict): the call left its argument as it was; recorded, not a violation
                 ctx.stats["observation:" + cls] += 1
                 obs = ctx.extra.setdefault("aliasing_observations", {})
                 obs.setdefault(f"{t.vsite} [{cls}]", detail[:300])
                 continue
             ctx.violation(t.vsite, cls, case, detail=detail)
-        viol = [v for v in viol if not v[0].startswith("alias-")]
+    viol = [v for v in viol if v[0] not in OBSERVATION_CLASSES]
     return exc is None, exc, viol
 
 
@@ -390,10 +622,40 @@ def oracle_selftest(ctx):
         ctx.stats["selftest"] += 1
         if not (expect <= got):
             problems.append(f"oracle self-test '{name}': expected {sorted(expect)}, comparer reported {sorted(got)}")
+    # iteration order of a member set (same elements): 0, 8, 16 collide in a small hash table, so clearing the set and
+    # re-adding the elements in reverse order changes the order a loop sees
+    so = L.spec("Hypergraph", [[0, {}], [8, {}], [16, {}]], [[[0, 8, 16], "$auto", {}]], {}, label="selftest-set-order")
+    H, _ = L.build(so)
+    b = L.snapshot(H)
+    ms = next(v for v in vars(H).values() if isinstance(v, dict) and list(v) == list(H.edges) and all(isinstance(x, set) for x in v.values()))[0]
+    xs = list(ms)
+    ms.clear()
+    for x in reversed(xs):
+        ms.add(x)
+    ctx.stats["selftest"] += 1
+    if list(ms) == xs:
+        problems.append("oracle self-test 'set iteration order': could not be applied (the order did not change)")
+    else:
+        got = {c for c, _ in L.diff(b, L.snapshot(H))}
+        if got != {"set-iteration-order"}:
+            problems.append(f"oracle self-test 'set iteration order': expected ['set-iteration-order'], comparer reported {sorted(got)}")
     # and no difference at all when nothing happens
     H, _ = L.build(sp)
     if L.diff(L.snapshot(H), L.snapshot(H)):
         problems.append("oracle self-test: two snapshots of an untouched network differ")
+    # the aliasing classification: structural containers are violations, attribute dicts observations
+    H, nested = L.build(sp)
+    internal = {i: p_ for i, (o, p_) in L.reach(H)[0].items() if i not in nested}
+    want = {"alias-members": lambda: H._edge["e"], "alias-memberships": lambda: H._node[0], "alias-attrs": lambda: H._node_attr[0],
+            "alias-net-attrs": lambda: H._net_attr, "alias-internal-container": lambda: H._edge}
+    for cls, get in want.items():
+        ctx.stats["selftest"] += 1
+        try:
+            got = shared_class(internal[id(get())])
+        except Exception as ex:  # noqa
+            got = repr(ex)
+        if got != cls:
+            problems.append(f"oracle self-test: sharing of {cls[6:]} classified as {got}")
     # the aliasing walk must see a handed-out internal set
     H, nested = L.build(sp)
     tbl = next(v for v in vars(H).values() if isinstance(v, dict) and list(v) == list(H.edges) and all(isinstance(x, set) for x in v.values()))
@@ -425,7 +687,7 @@ def obs_requests(H, rng):
         except (xgi.exception.IDNotFound, xgi.exception.XGIError, KeyError):
             return "err"
     S = lambda xs: sorted((enc_id(x) for x in xs), key=idkey)
-    A = lambda d: sorted(([str(k), canon_val(v)] for k, v in d.items()), key=lambda p: p[0])
+    A = lambda d: [[str(k), canon_val(v)] for k, v in d.items()]       # attribute key order is compared (not sorted)
     obs = [({"o": "nodeList"}, [enc_id(n) for n in nodes]), ({"o": "edgeList"}, [enc_id(e) for e in edges]),
            ({"o": "numNodes"}, H.num_nodes), ({"o": "numEdges"}, H.num_edges),
            ({"o": "membersDict"}, [[enc_id(e), S(ms)] for e, ms in H.edges.members(dtype=dict).items()]),
@@ -452,6 +714,20 @@ def obs_requests(H, rng):
     for k in list(H._net_attr)[:2] + ["nokey"]:
         obs.append(({"o": "netAttr", "k": k}, guard(lambda: canon_val(H[k]))))
     return [({"snap": snap, **o}, r) for o, r in obs]
+
+
+def canon_ordered(j):
+    """canonical form of a model response: {"$set": l} -> sorted list; {"$attrs": pairs} -> pairs IN THE MODEL'S ORDER
+    (core.canon sorts them by key; attribute key order is part of the statement, so it is compared here)"""
+    if isinstance(j, dict):
+        if set(j) == {"$set"}:
+            return sorted((canon_ordered(x) for x in j["$set"]), key=idkey)
+        if set(j) == {"$attrs"}:
+            return [[k, canon_ordered(v)] for k, v in j["$attrs"]]
+        return {k: canon_ordered(v) for k, v in j.items()}
+    if isinstance(j, list):
+        return [canon_ordered(x) for x in j]
+    return j
 
 
 def canon_val(v):
@@ -496,7 +772,7 @@ def correspondence(ctx, specs, ok):
             raise Infra(f"C08 driver rejected a request (harness defect): {json.dumps(r)[:300]}")
         ctx.traces += 1
         ctx.stats["obs:" + r["o"]] += 1
-        got = canon(m.get("v"))
+        got = canon_ordered(m.get("v"))
         if got != w:
             dis.append((r, w, got))
     if dis:
@@ -522,7 +798,9 @@ def load_corpus():
 
 
 def run_case(ctx, targets, case, env):
-    t = next((t for t in targets if t.site == case["site"] and t.extra.get("stat") == case.get("stat")), None)
+    cands = [t for t in targets if t.site == case["site"]]
+    t = next((t for t in cands if t.extra.get("stat") == case.get("stat")), None) or \
+        next((t for t in cands if case.get("stat") is None), None)
     if t is None:
         return None
     subj = Subject(case["network"])
@@ -531,14 +809,160 @@ def run_case(ctx, targets, case, env):
     return check_call(ctx, t, subj, case["args"], case["kwargs"], env)
 
 
+def single_variation(t, net, p, v, env):
+    """(args, kwargs) of the call that gives parameter p the value v and every other parameter its first choice / default"""
+    req = [q for q in t.params if q.default is inspect.Parameter.empty and q.kind != q.KEYWORD_ONLY]
+    first = [(param_candidates(t, q, net, env) or list(L.FALLBACK))[0] for q in req]
+    kw = dict(t.force)
+    if p in req:
+        first[req.index(p)] = v
+    else:
+        kw[p.name] = v
+    return [L.encode(x) for x in first], {k: L.encode(x) for k, x in kw.items()}
+
+
+def sweep(ctx, targets, specs, rot, status, env, budget_end, note):
+    """every enumerated option value is CALLED at least once (no time limit for that), and values that have been called but
+    never completed are tried again on other admissible networks while the budget lasts"""
+    pref = sorted(range(len(specs)), key=lambda i: (specs[i]["frozen"], specs[i]["label"].startswith("random"), i))
+    subs = {}
+    for t in targets:
+        if t.params is None or (t.probe and not t.accepted):
+            continue
+        for p in t.params:
+            tb = rot.state.get((t.site, t.extra.get("stat"), p.name))
+            if not tb:
+                continue
+            for ky, rec in list(tb.items()):
+                if rec[2] > 0:
+                    continue
+                tries = 0
+                for i in pref:
+                    if rec[2] > 0 or tries >= 3 or (rec[1] > 0 and (time.time() > budget_end or t.heavy and tries >= 1)):
+                        break
+                    sp = specs[i]
+                    if i not in subs:
+                        subs[i] = Subject(sp)
+                    subj = subs[i]
+                    if t.where(subj.net) is None:
+                        continue
+                    env["spec2"] = next(s for s in specs if s["label"] == ("dh-nice" if sp["cls"] == "DiHypergraph" else "hg-gaps"))
+                    c = [v for v in (param_candidates(t, p, subj.net, env) or []) if not _is_default(v, p)]
+                    req = p.default is inspect.Parameter.empty and p.kind != p.KEYWORD_ONLY
+                    pool = c[1:] if req else c
+                    j = next((j for j, v in enumerate(pool) if rot.key(p.name, j, v) == ky), None)
+                    if j is None:
+                        continue
+                    hit = pool[j]
+                    args, kwargs = single_variation(t, subj.net, p, hit, env)
+                    tries += 1
+                    rec[1] += 1
+                    okc, exc, viol = check_call(ctx, t, subj, args, kwargs, env)
+                    note(t, sp, args, kwargs, okc, exc)
+                    ctx.stats["calls:sweep"] += 1
+                    if okc:
+                        rec[2] += 1
+
+
+def call_mutator(t, subj, args, kwargs, env):
+    """call a DECLARED mutator on a fresh copy; -> (completed, exception text, changed components)"""
+    net = subj.net
+    obj = t.where(net)
+    exc = None
+    try:
+        f = t.bind(obj)
+        env["pname"], env["kwargs"] = "", kwargs
+        a = [L.resolve(x, net, env) for x in args]
+        kw = {}
+        for k, v in kwargs.items():
+            env["pname"] = k
+            kw[k] = L.resolve(v, net, env)
+        with warnings.catch_warnings(), contextlib.redirect_stdout(io.StringIO()):
+            warnings.simplefilter("ignore")
+            L.with_timeout(lambda: f(*a, **kw), 4)
+    except L.CallTimeout:
+        exc = "CallTimeout"
+    except Exception as ex:  # noqa
+        exc = f"{type(ex).__name__}: {str(ex)[:80]}"
+    try:
+        d = L.diff(subj.before, L.snapshot(net))
+    except Exception as ex:  # noqa   (a mutator may leave a state the public reads choke on: that is a change)
+        d = [("unreadable", repr(ex)[:80])]
+    if d:
+        subj.rebuild()
+    return exc is None, exc, sorted({c for c, _ in d})
+
+
+def mutator_crosscheck(ctx, mutators, specs, env):
+    """(d) the classification 'declared mutator => never called by the read-only run' rests on documentation (freeze() list,
+    `in_place`, no Returns section, mutating protocol methods).  Dynamic cross-check: call each declared mutator on COPIES
+    (fresh builds of unfrozen specs) and confirm that it does mutate or raises; one that completes calls and never changes
+    anything behaves read-only on everything tried - suspicious classification, reported as an observation."""
+    rot = Rotation()
+    base = [sp for sp in specs if not sp["frozen"] and sp["nodes"]][:9]
+    out = {}
+    for e in mutators:
+        name, kind, fn = e["name"], e["kind"], e["fn"]
+        if kind == "function":
+            where = lambda net: net
+            bind = (lambda f: (lambda net: (lambda *a, **k: f(net, *a, **k))))(fn)
+        else:
+            cls, meth = name.split(".", 1)
+            where = (lambda c: (lambda net: net if type(net).__name__ == c else None))(cls)
+            bind = (lambda m: (lambda obj: getattr(obj, m)))(meth)
+        ps = _params(fn, 1) if fn is not None else None
+        t = Target(name, "declared-mutator", ps, "mutator", {}, where, bind, literals=_lits(fn))
+        r = {"calls": 0, "completed": 0, "mutated": 0, "changed": set(), "exc": collections.Counter()}
+        for sp in base:
+            if r["mutated"] >= 2:
+                break
+            subj = Subject(sp)
+            if t.where(subj.net) is None:
+                continue
+            try:
+                calls = plan_calls(t, subj.net, rot, ctx.rng, 1, env, max_opt=3, combos=0)[:4]
+            except Exception as ex:  # noqa
+                r["exc"][f"plan: {type(ex).__name__}: {ex}"[:100]] += 1
+                continue
+            for args, kwargs, _tags in calls:
+                okc, exc, changed = call_mutator(t, subj, args, kwargs, env)
+                r["calls"] += 1
+                ctx.stats["calls:declared-mutator-on-copy"] += 1
+                r["completed"] += bool(okc)
+                r["mutated"] += bool(changed)
+                r["changed"] |= set(changed)
+                if exc:
+                    r["exc"][exc] += 1
+        out[name] = r
+    return out
+
+
 def run(ctx, only_case=None):
-    t0 = time.time()
-    entries = T.extract()
-    tab = T.write(entries)
-    ok = build_and_audit(ctx, "XgiModel.Props.C08", ["XgiModel.C08.Drive"], translate=lambda: T.write(T.extract()))
+    box = {}
+
+    def translate():
+        root = os.path.realpath(os.path.dirname(os.path.dirname(os.path.abspath(xgi.__file__))))
+        if not os.environ.get("XGI_REPO") and root != os.path.realpath("/repo"):
+            # core._restore_generated after a run against a scratch tree: the table is made by introspection of the imported
+            # package, so /repo's table has to be regenerated by a fresh interpreter that imports /repo
+            import subprocess
+            import sys
+            env = {k: v for k, v in os.environ.items() if k not in ("XGI_REPO", "PYTHONPATH")}
+            subprocess.run([sys.executable, "-m", "harness.c08_translate"], cwd=VERIF, env=env, capture_output=True, timeout=300)
+            return
+        box["entries"] = T.extract()
+        box["excluded_fns"] = list(T.EXCLUDED)
+        box["tab"] = T.write(box["entries"])
+
+    ok = build_and_audit(ctx, "XgiModel.Props.C08", ["XgiModel.C08.Drive"], translate=translate)
+    t_calls = time.time()                              # (c) the call budget starts AFTER the Lean build
+    ctx.extra["lean_build_and_audit_s"] = round(t_calls - ctx.t0, 1)
+    entries, tab = box["entries"], box["tab"]
     thorough = not ctx.quick
-    targets, skipped = build_targets(entries)
-    targets += stat_targets(entries, thorough)
+    targets, mutators, excluded = build_targets(entries, box["excluded_fns"])
+    st_targets, st_excluded, later = stat_targets(entries, thorough)
+    targets += st_targets
+    excluded += st_excluded
     tmp = tempfile.mkdtemp(prefix="c08-")
     env = {"tmp": tmp, "spec2": next(s for s in L.fixed_specs() if s["label"] == "hg-gaps")}
     try:
@@ -552,15 +976,35 @@ def run(ctx, only_case=None):
             return 1 if r[2] else 0                    # a replay does not rewrite the evidence file
         for p in oracle_selftest(ctx):
             ctx.broken.append(p)
-        specs = L.fixed_specs() + [L.random_spec(ctx.rng, k) for k in range(ctx.n(4, 40))]
+        specs = L.fixed_specs() + [L.random_spec(ctx.rng, k) for k in range(ctx.n(6, 40))]
         for c in load_corpus():
             run_case(ctx, targets, c, env)
             ctx.stats["corpus_cases"] += 1
-        status = {t.site: {"calls": 0, "ok": 0, "classes": set(), "exc": collections.Counter()} for t in targets}
-        budget_end = t0 + ctx.n(75, 780)
-        order = list(range(len(specs)))
-        for si in order:
-            sp = specs[si]
+        status = {}
+        for t in targets:
+            status.setdefault(t.site, {"calls": 0, "ok": 0, "ok_nonempty": 0, "classes": set(), "exc": collections.Counter(),
+                                       "targets": []})["targets"].append(t)
+        rot = Rotation()
+        spent = collections.Counter()
+        budget_end = t_calls + ctx.n(36, 780)
+
+        def note(t, sp, args, kwargs, okc, exc):
+            st = status[t.site]
+            st["calls"] += 1
+            ctx.stats["calls:" + t.kind] += 1
+            if okc:
+                st["ok"] += 1
+                st["ok_nonempty"] += bool(sp["nodes"] and sp["edges"])
+                st["classes"].add(sp["cls"])
+                if t.probe:
+                    t.accepted = True
+                ctx.nontrivial.add(jhash([t.site, t.extra.get("stat"), sp["label"], args, kwargs]))
+                if ctx.rng.random() < 0.002 or not ctx.samples:
+                    ctx.sample({"site": t.site, "network": sp["label"], "args": args, "kwargs": kwargs}, cap=6)
+            else:
+                st["exc"][exc[:120]] += 1
+
+        for si, sp in enumerate(specs):
             subj = Subject(sp)
             env["spec2"] = next(s for s in specs if s["label"] == ("dh-nice" if sp["cls"] == "DiHypergraph" else "hg-gaps"))
             full = si < 4 or thorough
@@ -568,30 +1012,37 @@ def run(ctx, only_case=None):
                 obj = t.where(subj.net)
                 if obj is None:
                     continue
-                if t.heavy and not thorough and si >= 6:
+                if t.probe and not t.accepted:
+                    if sp["cls"] in t.probed or sp["frozen"]:
+                        continue
+                    t.probed.add(sp["cls"])
+                if t.heavy and not thorough and si >= 5:
                     continue
-                if time.time() > budget_end and status[t.site]["ok"] > 0:
+                if time.time() > budget_end and status[t.site]["ok_nonempty"] > 0:
                     ctx.stats["skipped-for-time"] += 1
                     continue
+                if spent[t.site] > ctx.n(2.5, 60) and status[t.site]["ok_nonempty"] > 0:
+                    ctx.stats["skipped-slow-target"] += 1      # one slow callable must not eat the budget of the others
+                    continue
                 try:
-                    calls = plan_calls(t, subj.net, obj, ctx.rng, (2 if full else 1) if not thorough else 4, env)
+                    if t.probe and not t.accepted:     # dynamic probe: defaults + one variation of each required parameter
+                        calls = plan_calls(t, subj.net, rot, ctx.rng, 1, env, max_opt=0, combos=0, allfirst=False)
+                    else:
+                        calls = plan_calls(t, subj.net, rot, ctx.rng, (2 if full else 1) if not thorough else 3, env,
+                                           max_opt=(4 if t.heavy else None) if full else 2, combos=1 if not thorough else 3, allfirst=full)
                 except Exception as ex:  # noqa
                     status[t.site]["exc"][f"plan: {type(ex).__name__}: {ex}"[:120]] += 1
                     continue
-                if not full:
-                    calls = calls[:3]
-                for args, kwargs in calls:
+                tc = time.time()
+                for args, kwargs, tags in calls:
                     okc, exc, viol = check_call(ctx, t, subj, args, kwargs, env)
-                    st = status[t.site]
-                    st["calls"] += 1
-                    ctx.stats["calls:" + t.kind] += 1
+                    note(t, sp, args, kwargs, okc, exc)
                     if okc:
-                        st["ok"] += 1
-                        st["classes"].add(sp["cls"])
-                        ctx.nontrivial.add(jhash([t.site, t.extra.get("stat"), sp["label"], args, kwargs]))
-                        ctx.sample({"site": t.site, "network": sp["label"], "args": args, "kwargs": kwargs}, cap=4)
-                    else:
-                        st["exc"][exc[:120]] += 1
+                        rot.completed(t, tags)
+                spent[t.site] += time.time() - tc
+                ctx.stats["ms:" + ("heavy" if t.heavy else t.kind)] += int(1000 * (time.time() - tc))
+        sweep(ctx, targets, specs, rot, status, env, budget_end, note)
+        mut = mutator_crosscheck(ctx, mutators, specs, env)
         cspecs = list(specs)
         if thorough:                                   # exhaustive small scope for the observer correspondence
             from ..fn import all_small_hypergraphs
@@ -604,12 +1055,68 @@ def run(ctx, only_case=None):
         dis = correspondence(ctx, cspecs, ok)
     finally:
         shutil.rmtree(tmp, ignore_errors=True)
-    exercised = {s: {"ok_calls": v["ok"], "calls": v["calls"], "classes": sorted(v["classes"])} for s, v in sorted(status.items()) if v["ok"]}
-    not_ex = {s: {"calls": v["calls"], "exceptions": dict(v["exc"].most_common(3)) or "not admissible on any generated network"}
-              for s, v in sorted(status.items()) if not v["ok"]}
+
+    # ------------------------------------------------------------------ what was (not) exercised
+    unaccepted = {t.site for t in targets if t.probe and not t.accepted}
+    # "completed" = at least one call completed on a network that has nodes AND edges (a call that only completes on the empty
+    # network says nothing about what the callable does with members)
+    exercised = {s: {"ok_calls": v["ok"], "ok_calls_on_networks_with_edges": v["ok_nonempty"], "calls": v["calls"], "classes": sorted(v["classes"])}
+                 for s, v in sorted(status.items()) if v["ok_nonempty"]}
+    never = {s: v for s, v in sorted(status.items()) if not v["ok_nonempty"] and s not in unaccepted}
+    allowed, unexplained = {}, {}
+    for s_, v in never.items():
+        info = {"calls": v["calls"], "completed_only_on_networks_without_edges": v["ok"],
+                "exceptions": dict(v["exc"].most_common(3)) or "not admissible on any generated network"}
+        why = never_completes_reason(s_)
+        if why:
+            allowed[s_] = dict(info, reason=why)
+        else:
+            unexplained[s_] = info
+    for s_ in sorted(unaccepted):
+        v = status[s_]
+        t = v["targets"][0]
+        excluded.append({"name": s_, "reason": f"not recognised as taking a network first ({t.probe}); dynamic probe: {v['calls']} call(s) with a "
+                                               f"network of each class {sorted(t.probed)} as first argument all raised "
+                                               f"({', '.join(k for k, _ in v['exc'].most_common(2))[:160]})"})
+    accepted_by_probe = sorted(t.site for t in targets if t.probe and t.accepted)
+    suspicious = {n: {"calls": r["calls"], "completed": r["completed"], "how": next((e.get("how") for e in mutators if e["name"] == n), "")}
+                  for n, r in sorted(mut.items()) if r["completed"] > 0 and r["mutated"] == 0}
+    opt_total = opt_called = opt_done = 0
+    opt_never = []
+    for (site, stat, pname), tb in sorted(rot.state.items(), key=lambda kv: (kv[0][0], str(kv[0][1]), kv[0][2])):
+        if pname in L.ID_PARAMS or pname.startswith("__") or site in unaccepted:
+            continue
+        for ky, rec in tb.items():
+            opt_total += 1
+            opt_called += rec[1] > 0
+            opt_done += rec[2] > 0
+            if rec[2] == 0:
+                opt_never.append(f"{site}{'[' + stat + ']' if stat else ''}({pname}={ky})" + ("" if rec[1] else " NEVER CALLED"))
+    ctx.extra["targets_measured"] = {
+        "targets": len(status), "called": sum(1 for v in status.values() if v["calls"]), "completed": len(exercised),
+        "never_completed": len(never), "never_completed_allowed": len(allowed), "never_completed_reported": len(unexplained),
+        "module_level_functions_completed": sum(1 for s_, v in status.items() if v["ok_nonempty"] and v["targets"][0].kind == "function"),
+        "module_level_functions": sum(1 for s_, v in status.items() if v["targets"][0].kind == "function" and s_ not in unaccepted),
+        "dynamic_probes": len(unaccepted) + len(accepted_by_probe), "accepted_by_dynamic_probe": accepted_by_probe,
+        "declared_mutators_cross_checked": len(mut),
+        "declared_mutators_seen_mutating": sum(1 for r in mut.values() if r["mutated"]),
+        "declared_mutators_always_raising": sorted(n for n, r in mut.items() if r["completed"] == 0),
+        "option_values_enumerated": opt_total, "option_values_called": opt_called, "option_values_completed": opt_done,
+        "stat_method_pairs_left_to_thorough_tier": later,
+    }
+    ctx.extra["slowest_targets_s"] = {k: round(v, 2) for k, v in spent.most_common(12)}
     ctx.extra["exercised"] = exercised
-    ctx.extra["not_exercised"] = not_ex
-    ctx.extra["declared_mutators_not_called"] = sorted(skipped)
+    ctx.extra["never_completed_allowed"] = allowed
+    ctx.extra["never_completed_reported"] = unexplained
+    ctx.extra["excluded_callables"] = sorted(excluded, key=lambda x: x["name"])
+    ctx.extra["declared_mutators_not_called_by_the_read_only_run"] = {
+        e["name"]: ("function: first-parameter documentation says the argument is modified" if e["kind"] == "function" else
+                    ("listed in freeze()" if e.get("how") == "frozen-list" else
+                     ("mutating protocol method" if e["name"].split(".", 1)[1] in T.MUTATING_PROTOCOL else
+                      "documented as a procedure (no Returns/Yields section)")))
+        for e in sorted(mutators, key=lambda e: e["name"])}
+    ctx.extra["declared_mutators_completed_but_never_mutated"] = suspicious
+    ctx.extra["option_values_never_completed"] = opt_never[:400]
     ctx.extra["in_place_functions_called_with_in_place_False"] = sorted(t.site for t in targets if t.force)
     ctx.extra["api_table"] = {"functions": sum(1 for e in tab if e["kind"] == "function"), "methods": sum(1 for e in tab if e["kind"] != "function"),
                               "with_in_place": [e["name"] for e in tab if e["has_in_place"]],
@@ -617,57 +1124,94 @@ def run(ctx, only_case=None):
     ctx.extra["networks"] = [s["label"] + ":" + s["cls"] + (":frozen" if s["frozen"] else "") for s in specs]
     ctx.stats["targets"] = len(status)
     ctx.stats["targets_exercised"] = len(exercised)
-    ctx.stats["targets_not_exercised"] = len(not_ex)
+    ctx.stats["targets_never_completed"] = len(never)
+    ctx.stats["option_values_never_called"] = opt_total - opt_called
+    if opt_total != opt_called:
+        ctx.broken.append(f"{opt_total - opt_called} enumerated option value(s) were never called (harness defect: the sweep must call each)")
     ctx.rule = ("targets = every public module-level function whose first parameter is a network (signature + numpydoc, see "
-                "c08_translate), every public method/property/protocol method of the three network classes that is not a declared "
-                "mutator, every method of the view and stat classes, every stat accessor; declared in-place functions only with "
-                "in_place=False.  Networks = 15 fixed (three classes; explicit IDs incl. 0, empty edges, isolated nodes, multi-edges, "
-                "nested mutable attribute values at three levels, non-sorted attribute key order, frozen twins) + seeded random ones. "
-                "Arguments from per-parameter-name generators, one optional parameter varied at a time (random combinations in the "
-                "thorough tier), defaults otherwise.  One evaluation = one call (also when it raises) with before/after deep snapshot + "
-                "aliasing walk + in-place mutation of the result.  Distinct non-trivial = distinct (site, network, arguments) whose "
-                "call completed.")
+                "c08_translate; the other public functions are probed dynamically with a network of each class as first argument and "
+                "become targets when such a call completes), every public method/property/protocol method of the three network classes "
+                "that is not a declared mutator, every method of the view and stat classes, every stat accessor; declared in-place "
+                "functions only with in_place=False; declared mutators are called on copies only (cross-check that they mutate).  "
+                f"Networks = {len(L.fixed_specs())} fixed (three classes; explicit IDs incl. 0, empty edges, isolated nodes, multi-edges, "
+                "one-element networks, nested mutable attribute values at three levels, non-sorted attribute key order, frozen twins) + "
+                "seeded random ones.  Arguments: per parameter, the literals the function's own body compares the parameter with, then "
+                "per-parameter-name generators; one parameter varied at a time with ROTATION (the next value is one that has not completed "
+                "yet, then the least-called one), one random combination of optional parameters per target and network, and a final "
+                "sweep that calls every enumerated value not yet called.  One evaluation = one call (also when it raises) with "
+                "before/after deep snapshot + aliasing walk + in-place mutation of the result.  Distinct non-trivial = distinct "
+                "(site, network, arguments) whose call completed.")
     ctx.assumptions = [
-        "a function counts as exercised when at least one generated call completed without raising; calls that raise are still compared before/after",
-        "sharing of caller-supplied nested attribute values (what a shallow dict copy does) is counted (alias:shared-user-attribute-values) "
-        "but is not a violation: the statement is about the call leaving the network as it was; handing out one of the network's own "
-        "containers (tables, member/membership sets, attribute dicts, the counter) is a violation",
+        "a target counts as exercised when at least one generated call completed without raising; calls that raise are still compared "
+        "before/after; a target with zero completed calls is reported (never-completed) unless it is in the documented list "
+        "NEVER_COMPLETES of callables that raise inside xgi for every input",
+        "aliasing: a result sharing one of the argument's STRUCTURAL containers (member/membership sets, node/edge tables, attribute "
+        "tables, counter) is a violation; sharing of ATTRIBUTE dicts (alias-attrs, alias-net-attrs: H.nodes[n], attrs statistics, "
+        "to_hif_dict, to_hypergraph_dict) is an observation; sharing of caller-supplied nested attribute values (what a shallow dict "
+        "copy does) is only counted (alias:shared-user-attribute-values)",
         "live views / stat objects returned by the API reference their network by design and are not entered by the walk; matplotlib artists "
         "and scipy sparse matrices are leaves of the walk",
-        "set iteration order is not part of the snapshot (sets are compared as sets); dict orders are",
+        "iteration order of member/membership sets is compared as the order a loop over the stored set sees (component "
+        "set-iteration-order); two sets with the same elements and the same loop order are the same",
         "parameters documented as constructors (create_using) are factories, not input networks",
+        "admissible argument values are sampled, not enumerated: literals of the body + name-based generators; combinations of "
+        "optional parameters only at random",
     ]
     # verdict: findings already listed as known must not hide a broken obligation / correspondence
-    known = {(k["site"], k["failure_class"]) for k in load_known() if k["property"] == ctx.prop}
-    fresh = [v for v in ctx.violations if (v["site"], v["failure_class"]) not in known]
+    fresh = [v for v in unlisted_violations(ctx) if v["kind"] == "concrete"]
     if (dis or not ok or ctx.broken) and not fresh:
         more = [L.random_spec(ctx.rng, 1000 + k) for k in range(ctx.n(12, 60))]      # search harder on the implementation
         t1 = time.time()
         env["tmp"] = tempfile.mkdtemp(prefix="c08-")
+        # entries the static scan calls writers although nothing declares them mutators (what breaks the table theorem): every
+        # candidate value of every parameter on every network first
+        suspects = {e["name"] for e in tab if e["ast_writes"] and not e["has_in_place"] and not e["doc_mutator"]}
+        ctx.extra["static_scan_suspects"] = sorted(suspects)
         try:
+            for sp in (specs + more if suspects else []):
+                subj = Subject(sp)
+                for t in targets:
+                    if t.site not in suspects or t.where(subj.net) is None or time.time() - t1 > ctx.n(20, 150):
+                        continue
+                    try:
+                        for args, kwargs, tags in plan_calls(t, subj.net, rot, ctx.rng, 50, env, combos=2):
+                            check_call(ctx, t, subj, args, kwargs, env)
+                            ctx.stats["targeted-search-calls"] += 1
+                    except Exception:  # noqa
+                        continue
             for sp in more:
                 subj = Subject(sp)
                 for t in targets:
                     obj = t.where(subj.net)
-                    if obj is None or time.time() - t1 > ctx.n(40, 300):
+                    if obj is None or (t.probe and not t.accepted) or time.time() - t1 > ctx.n(40, 300):
                         continue
                     try:
-                        for args, kwargs in plan_calls(t, subj.net, obj, ctx.rng, 3, env)[:6]:
+                        for args, kwargs, tags in plan_calls(t, subj.net, rot, ctx.rng, 2, env, max_opt=4)[:8]:
                             check_call(ctx, t, subj, args, kwargs, env)
                             ctx.stats["targeted-search-calls"] += 1
                     except Exception:  # noqa
                         continue
         finally:
             shutil.rmtree(env["tmp"], ignore_errors=True)
-        fresh = [v for v in ctx.violations if (v["site"], v["failure_class"]) not in known]
+        fresh = [v for v in unlisted_violations(ctx) if v["kind"] == "concrete"]
         if not fresh:
             ctx.violation("model-tie", "unproven", {"broken": ctx.broken, "example": ctx.extra.get("disagreements", [])[:1]},
                           detail="; ".join(ctx.broken)[:500], kind="unproven", broken=ctx.broken)
+    # (b) a target no generated call completes for proves nothing about that callable: reported, never silently accepted
+    for s_, info in unexplained.items():
+        ctx.violation(s_, "never-completed", {"site": s_, **info},
+                      detail=f"{s_}: none of the {info['calls']} generated call(s) completed on a network with nodes and edges "
+                             f"({info['exceptions']}); its read-only behaviour was never observed on a completed call and it is not in the "
+                             "documented list of callables that cannot complete (harness/props/c08.py NEVER_COMPLETES)", kind="unproven",
+                      broken=[f"{s_}: zero completed calls"])
     return finish(ctx, level="proof", trusted_base=TRUSTED_COMMON + [
-        "harness/c08_translate.py (introspection + AST scan; its table is cross-checked by the before/after run of every entry)",
+        "harness/c08_translate.py (introspection + AST scan; its classification is cross-checked dynamically: every entry it does not "
+        "declare a mutator is run under the snapshot comparison, every declared mutator is called on copies, every public function "
+        "it does not recognise as network-first is probed with a network as first argument)",
         "private reads: copy.copy(H._edge_uid); vars(H) read generically for the raw state; H._node_attr/_edge_attr/_net_attr key order "
-        "when encoding a network for the model's observers",
-        "id()-based reachability walk and in-place scribbling of results; oracle self-test (14 seeded kinds of change must be reported)"])
+        "when encoding a network for the model's observers; the private field names _node/_edge/_node_attr/_edge_attr/_net_attr to "
+        "classify WHICH internal container a result shares (structural vs attribute dict)",
+        "id()-based reachability walk and in-place scribbling of results; oracle self-test (20 seeded kinds of change / sharing must be reported)"])
 
 
 def replay(ctx, path):
